@@ -1846,8 +1846,12 @@ double Analyser::AnalyserImpl::powerValue(const AnalyserEquationAstPtr &ast,
 
     case AnalyserEquationAst::Type::CI: {
         auto initialValue = ast->variable()->initialValue();
+        double initialValueAsDouble;
 
-        if (initialValue.empty()) {
+        if (!convertToDouble(initialValue, initialValueAsDouble)) {
+            // Either there is no initial value or it is a reference to another
+            // variable, so the value of the exponent is not available.
+
             powerData.mExponentValueAvailable = false;
 
             return NAN;
@@ -1855,7 +1859,7 @@ double Analyser::AnalyserImpl::powerValue(const AnalyserEquationAstPtr &ast,
 
         powerData.mExponentValueChangeable = true;
 
-        return std::stod(initialValue);
+        return initialValueAsDouble;
     }
     case AnalyserEquationAst::Type::CN:
         return std::stod(ast->value());
